@@ -45,6 +45,7 @@ func genC11(seed uint64, run int, tier string) Scenario {
 			}
 			// ... or from the caller's own hook, as a dialogue that starts with the hidden answer
 			sc.GateByDialogue = r.IntN(3) == 0
+			sc.PlatVariant = !sc.GateByDialogue && r.IntN(2) == 0
 			gate := &peer.Mode{Name: "gate", Prompt: "Password: ", NoEcho: true, Cmds: map[string]*peer.Reply{sc.PlatLogin: {Next: sc.Dev.Start}}}
 			gate.Default = &peer.Reply{Out: []peer.Tok{{S: "% Login invalid"}}, Next: "gate"}
 			gate.Empty = gate.Default
